@@ -99,6 +99,14 @@ func ioFaultCase(c *core.Ctx, res *core.Result, txOnly bool) {
 	res.Count("io_faults_injected", int64(injected))
 	res.Count("io_fault_"+k.sys+"_"+k.errno, int64(injected))
 	res.Sig = core.Sig("io", k.sys, k.errno, k.onlyLog, when, cfg.MemTableSize, len(j.Errored))
+	if _, serr := os.Stat(spec.Journal); serr != nil {
+		st := eb.String()
+		if len(st) > 600 {
+			st = st[len(st)-600:]
+		}
+		res.Inconclusive = "strace did not run the program (no journal): " + st
+		return
+	}
 	if !j.Opened {
 		// the fault hit the open itself: nothing was issued
 		res.Count("io_fault_during_open", 1)
